@@ -583,9 +583,9 @@ func pwFailureD(b []byte, o *pwOpts, wantDetail bool) (clause, detail string) {
 		case implAccepts && refAccepts:
 			return "tree-differs", ""
 		case implAccepts:
-			_, e2 := refParse(b, o, 1<<30)
-			for _, e := range e2 {
-				if e == "" {
+			t2, e2 := refParse(b, o, 1<<30)
+			for i, e := range e2 {
+				if e == "" && sameTree(ir.F, t2[i]) {
 					return "depth-limit-exceeded", ""
 				}
 			}
@@ -599,9 +599,9 @@ func pwFailureD(b []byte, o *pwOpts, wantDetail bool) (clause, detail string) {
 	case implAccepts && refAccepts:
 		return "tree-differs", fmt.Sprintf("ParseRawFields(% x, %s) = %s; the reference walker over protowire.Consume* reads %s", b, o, implTreeString(ir.F), treeString(trees[0]))
 	case implAccepts && !refAccepts:
-		_, e2 := refParse(b, o, 1<<30)
-		for _, e := range e2 {
-			if e == "" {
+		t2, e2 := refParse(b, o, 1<<30)
+		for i, e := range e2 {
+			if e == "" && sameTree(ir.F, t2[i]) {
 				return "depth-limit-exceeded", fmt.Sprintf("ParseRawFields(% x, %s) accepted %s although the input nests deeper than max_depth=%d levels", b, o, implTreeString(ir.F), effDepth(o))
 			}
 		}
